@@ -36,35 +36,39 @@ Fixpoint has_dup (ks : list (list Z)) : bool :=
   | k :: r => mem_key k r || has_dup r
   end.
 
+(* all elements evaluated without error *)
+Fixpoint collect (rs : list lresult) : option (list lvalue) :=
+  match rs with
+  | [] => Some []
+  | LOk v :: r => match collect r with Some vs => Some (v :: vs) | None => None end
+  | LError :: _ => None
+  end.
+
+Fixpoint collect_attrs (rs : list (list Z * lresult)) : option (list (list Z * lvalue)) :=
+  match rs with
+  | [] => Some []
+  | (k, LOk v) :: r => match collect_attrs r with Some vs => Some ((k, v) :: vs) | None => None end
+  | (_, LError) :: _ => None
+  end.
+
+(* array -> tuple: element i of the array is element i of the tuple *)
+Definition tuple_of (rs : list lresult) : lresult :=
+  match collect rs with Some l => LOk (LTuple l) | None => LError end.
+
+(* object -> object; the same name twice is an error *)
+Definition object_of (rs : list (list Z * lresult)) : lresult :=
+  match collect_attrs rs with
+  | Some l => if has_dup (map fst l) then LError else LOk (LObject l)
+  | None => LError
+  end.
+
 Fixpoint value_of (j : jvalue) : lresult :=
   match j with
   | JNull => LOk LNullDyn
   | JBool b => LOk (LBool b)
   | JNum m e => LOk (LNumber m e)
   | JStr s => LOk (LString s)
-  | JArr vs =>
-      match (fix elems (l : list jvalue) : option (list lvalue) :=
-               match l with
-               | [] => Some []
-               | x :: r => match value_of x, elems r with
-                           | LOk v, Some vs' => Some (v :: vs')
-                           | _, _ => None
-                           end
-               end) vs with
-      | Some l => LOk (LTuple l)
-      | None => LError
-      end
-  | JObj ms =>
-      match (fix attrs (l : list (list Z * jvalue)) : option (list (list Z * lvalue)) :=
-               match l with
-               | [] => Some []
-               | (k, x) :: r => match value_of x, attrs r with
-                                | LOk v, Some as' => Some ((k, v) :: as')
-                                | _, _ => None
-                                end
-               end) ms with
-      | Some l => if has_dup (map fst l) then LError else LOk (LObject l)
-      | None => LError
-      end
+  | JArr vs => tuple_of (map value_of vs)
+  | JObj ms => object_of (map (fun kv => (fst kv, value_of (snd kv))) ms)
   | JInvalid => LOk LDynUnknown
   end.
